@@ -299,11 +299,22 @@ func (w *World) monQos2Once(h []ev) {
 	}
 	pendingRel := map[int]map[packet.ID]bool{}
 	mode := "sync"
-	tainted := map[string]bool{} // handed to the backend while it was not acknowledging synchronously
+	// handed to the backend while it was not acknowledging synchronously and the acknowledgement is still outstanding
+	// (the recorded known finding); once the backend invokes its deferred acknowledgements the stored PUBLISH is gone
+	// and a later second hand-over is NOT explained by it
+	tainted := map[string]bool{}
+	taintMode := map[string]string{}
+	excused := map[string]bool{} // a second hand-over that happened while the first acknowledgement was still outstanding
 	for _, e := range h {
 		switch e.kind {
 		case "ackmode":
 			mode = e.txt
+		case "ackrelease":
+			for k := range tainted {
+				if taintMode[k] == "late" {
+					delete(tainted, k)
+				}
+			}
 		case "stim-send":
 			switch p := e.pkt.(type) {
 			case *packet.Publish:
@@ -332,11 +343,13 @@ func (w *World) monQos2Once(h []ev) {
 				count[k]++
 				if mode != "sync" {
 					tainted[k] = true
+					taintMode[k] = mode
 				}
 				if count[k] > 1 {
 					kind := "qos2-forwarded-twice"
 					if tainted[k] {
 						kind += "/late-ack"
+						excused[k] = true
 					}
 					w.hit(kind, fmt.Sprintf("QoS 2 message %q of client %s handed to the backend %d times", p.Message.Payload, cid(e.conn), count[k]))
 				}
@@ -354,7 +367,7 @@ func (w *World) monQos2Once(h []ev) {
 		}
 	}
 	for k := range comp {
-		if count[k] != 1 && !tainted[k] {
+		if count[k] == 0 || (count[k] > 1 && !excused[k]) {
 			w.hit("qos2-not-exactly-once", fmt.Sprintf("QoS 2 message %s completed (PUBCOMP sent) but handed to the backend %d times", k, count[k]))
 		}
 	}
